@@ -38,7 +38,7 @@ def classify(unit: dict[str, Any], call: dict[str, Any], ref: list[list[Any]], g
     b = got[i] if i < len(got) else ["<nothing>"]
     if a[0] in ("exc", "setup-exc") and b[0] == a[0]:
         if a[1] != b[1]:
-            return (f"exc-type:{a[1]}->{b[1]}:{F.norm_msg(str(b[2]))}" + ("" if free else f":{kind}"),
+            return (f"exc-type:{a[1]}->{b[1]}:{F.norm_msg(str(b[2]))}",
                     f"interpreted raises {a[1]}({a[2]!r}), compiled raises {b[1]}({b[2]!r})")
         return (f"exc-message:{a[1]}:{F.norm_msg(str(a[2]))} => {F.norm_msg(str(b[2]))}",
                 f"same exception type {a[1]} but different message: {a[2]!r} vs {b[2]!r}")
@@ -193,6 +193,10 @@ def run(ctx: common.Ctx) -> None:
             if n_corpus:
                 from vlib import c05_corpus
                 c05_corpus.run_corpus(ctx, pool, wd, n_corpus, repo)
+        if os.environ.get("VERIF_C05_DUMP"):
+            import json
+            with open(os.environ["VERIF_C05_DUMP"], "w") as f:
+                json.dump({"violations": ctx.violations, "known": ctx.known_hits}, f, indent=1, default=str)
         ctx.extra["registered_primitives"] = len(registered)
         ctx.extra["registered_primitives_in_driven_ir"] = len(exercised & registered)
         ctx.extra["c_functions_in_driven_ir"] = len(exercised)
